@@ -34,6 +34,7 @@ func rulesC06(c *Ctx) {
 	c06Discard(c)
 	c06Inherited(c)
 	c06Round2(c, c.P.BuildIndex())
+	c06Round3(c)
 	c06Borrowed(c)
 	const rule = "C06.guard"
 	api := "storage/mkvs/db/api."
